@@ -30,6 +30,11 @@ Outcomes(e, D) ==
   LET r == StepF(st, e.ev, e.a, D)
   IN IF r.res # "ok" /\ e.ev \notin AtomicOps /\ e.ev \notin Consuming
      THEN {r, [res |-> r.res, st |-> st, out |-> NoOut]}
+     ELSE IF r.res # "ok" /\ e.ev = "append_name" /\ st.open
+     THEN \* whether the open label's length octet was written before the
+          \* error is not observable and differs between today's code and
+          \* the repaired one: both are followed
+          {[r EXCEPT !.st.fresh = st.fresh], [r EXCEPT !.st.fresh = TRUE]}
      ELSE {r}
 
 Hit(e, T) == \E r \in Outcomes(e, T) : Matches(r, e)
@@ -42,7 +47,8 @@ TInit == l = 1 /\ usedT = {} /\ st = InitSt /\ last = NoCall
 T_New ==
   /\ l <= Len(Rec) /\ Rec[l].ev = "new"
   /\ LET ls == Rec[l].labs
-         s0 == [len |-> WireOfLens(ls), open |-> FALSE, cur |-> 0, ok |-> TRUE, labs |-> ls]
+         s0 == [len |-> WireOfLens(ls), open |-> FALSE, cur |-> 0, ok |-> TRUE, labs |-> ls,
+                fresh |-> FALSE]
      IN /\ ValidRel(LabelsOf(ls))
         /\ ProjT(s0) = Rec[l].s
         /\ st' = s0
@@ -55,9 +61,9 @@ T_Call ==
          hits == {T \in SUBSET (RelDevs(e.ev) \cap Dev) : Hit(e, T)}
      IN /\ hits # {}
         /\ LET need == CHOOSE T \in hits : \A T2 \in hits : Cardinality(T) <= Cardinality(T2)
-               r == CHOOSE r \in Outcomes(e, need) : Matches(r, e)
-           IN /\ st' = r.st
-              /\ last' = [op |-> e.ev, arg |-> e.a, res |-> r.res, out |-> r.out, pre |-> st]
+           IN /\ \E r \in {o \in Outcomes(e, need) : Matches(o, e)} :
+                   /\ st' = r.st
+                   /\ last' = [op |-> e.ev, arg |-> e.a, res |-> r.res, out |-> r.out, pre |-> st]
               /\ usedT' = usedT \cup need
               /\ IF need \subseteq usedT THEN TRUE
                  ELSE PrintT("DEV_USED " \o ToJson([devs |-> need, at |-> l, event |-> e]))
